@@ -36,13 +36,13 @@ Proof. exact newfb_content. Qed.
    one size pseudo-rectangle with the new size (extended form: stored reason and status); then the
    picture has the new size and the whole new screen is still marked modified *)
 Theorem C16_size_first : forall st w h bpp seed c,
-  cUseNewFB c = true ->
+  cUseNewFB c = true -> cScaled c = None ->
   let st' := newfb_state st w h bpp seed in
   let c1 := newfb_client w h c in
   exists c2,
     send_client st' c1 =
       Some (c2, Some (1, [if cUseExt c then WExt (cReqChange c) (cLastErr c) w h else WNewFB w h])) /\
-    (negb (rgn_is_empty (cR c1)) = true -> tick_client st' c1 = send_client st' c1) /\
+    (negb (rgn_is_empty (cR c1)) = true -> xDefer (sExt st) = 0 -> tick_client st' c1 = send_client st' c1) /\
     cNewFBPending c2 = false /\ cPW c2 = w /\ cPH c2 = h /\
     cM c2 = rgn_create_rect 0 0 w h /\ cC c2 = rgn_empty /\ cR c2 = cR c /\
     (cUseExt c = true -> cReqChange c2 = 0 /\ cLastErr c2 = 0).
@@ -63,7 +63,7 @@ Proof. exact full_contents_follow. Qed.
    rfbSendFramebufferUpdate never yields the explicit out-of-range error and every pixel / copy
    rectangle (and CopyRect source) it emits lies inside the current framebuffer *)
 Theorem C16_send_never_out_of_range : forall st c,
-  Inv st -> In c (sClients st) -> exists r, send_client st c = Some r.
+  Inv st -> In c (sClients st) -> scaled_guard c = false -> exists r, send_client st c = Some r.
 Proof. exact send_total. Qed.
 
 Theorem C16_rects_inside_new_size : forall st c c' n rects,
@@ -102,14 +102,30 @@ Theorem C16_setdesktopsize_others : forall hookres c,
 Proof. exact setdesktop_other. Qed.
 
 Theorem C16_setdesktopsize_refusal_sent : forall st hookres c,
-  hookres <> 0 -> cUseExt c = true -> cUseNewFB c = true ->
+  hookres <> 0 -> cUseExt c = true -> cUseNewFB c = true -> cScaled c = None ->
   exists c2, send_client st (setdesktop_one true hookres c) =
              Some (c2, Some (1, [WExt c16_reason_client hookres (sW st) (sH st)])) /\
              cNewFBPending c2 = false /\ cReqChange c2 = 0 /\ cLastErr c2 = 0.
 Proof. exact setdesktop_refusal_sent. Qed.
 
-(* C16_scaled_refuted (DESIGN.md, F12): scaled screens are not part of the model; F12 is exhibited
-   on the implementation by the implementation-only case class f12 of props/C16.py. *)
+(* scaled screens (only their size bookkeeping is in the model): rfbNewFramebuffer leaves the
+   scaledScreenNext chain and every client's scaledScreen alone ... *)
+Theorem C16_newfb_keeps_scaled : forall st w h bpp seed,
+  xChain (sExt (newfb_state st w h bpp seed)) = xChain (sExt st) /\
+  map cScaled (sClients (newfb_state st w h bpp seed)) = map cScaled (sClients st).
+Proof. exact newfb_keeps_scaled. Qed.
+
+(* ... FULL STATEMENT (refuted, F12): after rfbNewFramebuffer a client that asked for scale n is told
+   the size (W'/n, H'/n) of the new framebuffer.  Witness f12_ops: 12x8 screen, SetScale 2, new
+   framebuffer 24x16: the client is told 6x4 (the stale scaled copy of the old framebuffer, still the
+   only entry of the chain) instead of 12x8.  Replayed on the library by corpus/C16/f12_model.script. *)
+Theorem C16_scaled_refuted :
+  exists st c c', run (init_state 12 8 4) f12_ops = Some st /\ Inv st /\
+    nth_error (sClients st) 0 = Some c /\ sW st = 24 /\ sH st = 16 /\
+    cScaled c = Some (6, 4) /\ xChain (sExt st) = [(6, 4)] /\
+    send_client st c = Some (c', Some (1, [WNewFB 6 4])) /\
+    (6, 4) <> (Z.quot (sW st) 2, Z.quot (sH st) 2).
+Proof. exact scaled_stale_after_newfb. Qed.
 
 (* ---------------------------------------------------------------- non-vacuity *)
 Definition nv16_ops : list op :=
